@@ -1,7 +1,167 @@
+/-
+  C17: version-edit (MANIFEST record) encoding.  Round trip, totality / fuel sufficiency of the
+  reader, "last scalar wins / field order tolerance" for concatenated records, and the
+  (level, number) set used for deleted files.
+-/
 import LcdbModel.Props.Consts
 import LcdbModel.Props.CodingProps
 import LcdbModel.Model.VersionEdit
+import LcdbModel.Lemmas.VersionEdit
 namespace Lcdb.C17
 open Lcdb
+
+/-! ### 1 round trip -/
+
+/-- `ldb_edit_import (ldb_edit_export e) = e` for every well-formed edit -/
+theorem edit_roundtrip (e : Edit) (h : EditWF e) : editDecode (editEncode e) = some e := by
+  have := editDecodeFrom_encode e h [] {}
+  rw [List.append_nil, editDecodeFrom_nil, editMerge_empty e h.deletedSorted] at this
+  exact this
+
+/-! ### 2 totality and fuel sufficiency -/
+
+/-- the reader is a total function: every input yields a definite result (`none` = corruption) -/
+theorem decode_total (bs : Bytes) : ∃ r : Option Edit, editDecode bs = r := ⟨_, rfl⟩
+
+/-- any fuel above the input length gives the same answer as any other such fuel -/
+theorem editDecodeGo_fuel_irrel (f1 f2 : Nat) (bs : Bytes) (e : Edit)
+    (h1 : bs.length < f1) (h2 : bs.length < f2) :
+    editDecodeGo f1 bs e = editDecodeGo f2 bs e :=
+  editDecodeGo_fuel_eq f1 f2 bs e h1 h2
+
+/-- the fuel `bs.length + 1` used by `editDecode` is sufficient: more fuel changes nothing -/
+theorem editDecodeGo_fuel (f : Nat) (bs : Bytes) (e : Edit) (h : f ≥ bs.length + 1) :
+    editDecodeGo f bs e = editDecodeGo (bs.length + 1) bs e :=
+  editDecodeGo_fuel_eq f (bs.length + 1) bs e (by omega) (by omega)
+
+/-- in particular the reader never fails merely for lack of fuel -/
+theorem editDecode_eq_of_fuel (f : Nat) (bs : Bytes) (h : f ≥ bs.length + 1) :
+    editDecodeGo f bs {} = editDecode bs :=
+  editDecodeGo_fuel f bs {} h
+
+/-! ### 3 what the reader really does on concatenated records -/
+
+/-- decoding an encoded well-formed edit `b` followed by arbitrary bytes `rest`, starting from an
+    arbitrary accumulated edit `acc`, merges `b` into `acc` and continues with `rest` -/
+theorem decode_encode_append (b : Edit) (hb : EditWF b) (rest : Bytes) (acc : Edit) :
+    editDecodeGo ((editEncode b ++ rest).length + 1) (editEncode b ++ rest) acc
+      = editDecodeGo (rest.length + 1) rest (editMerge acc b) :=
+  editDecodeFrom_encode b hb rest acc
+
+/-- later scalar fields win, list fields accumulate, deleted files are set-inserted -/
+theorem decode_last_scalar_wins (a b : Edit) (ha : EditWF a) (hb : EditWF b) :
+    editDecode (editEncode a ++ editEncode b) = some (editMerge a b) := by
+  have h1 := editDecodeFrom_encode a ha (editEncode b) {}
+  have h2 := editDecodeFrom_encode b hb [] a
+  rw [editMerge_empty a ha.deletedSorted] at h1
+  rw [List.append_nil, editDecodeFrom_nil] at h2
+  exact h1.trans h2
+
+/-- `editMerge` field by field (the definition, restated as the specification) -/
+theorem editMerge_spec (a b : Edit) :
+    (editMerge a b).comparator = (match b.comparator with | some c => some c | none => a.comparator) ∧
+    (editMerge a b).logNumber = (match b.logNumber with | some v => some v | none => a.logNumber) ∧
+    (editMerge a b).prevLogNumber = (match b.prevLogNumber with | some v => some v | none => a.prevLogNumber) ∧
+    (editMerge a b).nextFile = (match b.nextFile with | some v => some v | none => a.nextFile) ∧
+    (editMerge a b).lastSeq = (match b.lastSeq with | some v => some v | none => a.lastSeq) ∧
+    (editMerge a b).compactPointers = a.compactPointers ++ b.compactPointers ∧
+    (editMerge a b).deletedFiles = b.deletedFiles.foldl (fun s x => setInsert x s) a.deletedFiles ∧
+    (editMerge a b).newFiles = a.newFiles ++ b.newFiles := by
+  refine ⟨?_, ?_, ?_, ?_, ?_, rfl, rfl, rfl⟩ <;> simp only [editMerge] <;> split <;> simp_all
+
+/-- the merged deleted-file set is exactly the union -/
+theorem mem_editMerge_deletedFiles (a b : Edit) (x : Nat × Nat) :
+    x ∈ (editMerge a b).deletedFiles ↔ x ∈ a.deletedFiles ∨ x ∈ b.deletedFiles := by
+  simp only [editMerge]
+  generalize a.deletedFiles = s
+  induction b.deletedFiles generalizing s with
+  | nil => simp
+  | cons y ys ih =>
+    simp only [List.foldl_cons, ih, mem_setInsert', List.mem_cons]
+    constructor
+    · rintro ((h | h) | h) <;> simp [h]
+    · rintro (h | h | h) <;> simp [h]
+
+/-- and stays strictly sorted (so it is a faithful image of the C red-black set) -/
+theorem editMerge_deletedFiles_sorted (a b : Edit) (h : PairSorted a.deletedFiles) :
+    PairSorted (editMerge a b).deletedFiles := by
+  simp only [editMerge]
+  generalize a.deletedFiles = s at h
+  induction b.deletedFiles generalizing s with
+  | nil => simpa using h
+  | cons y ys ih => exact ih _ (setInsert_sorted' y s h)
+
+/-! ### 4 the (level, number) set -/
+
+theorem setInsert_sorted (x : Nat × Nat) (l : List (Nat × Nat))
+    (h : l.Pairwise (fun a b => pairLt a b = true)) :
+    (setInsert x l).Pairwise (fun a b => pairLt a b = true) :=
+  setInsert_sorted' x l h
+
+/-- unconditional -/
+theorem setInsert_idem (x : Nat × Nat) (l : List (Nat × Nat)) :
+    setInsert x (setInsert x l) = setInsert x l :=
+  setInsert_idem' x l
+
+/-- unconditional -/
+theorem mem_setInsert (x y : Nat × Nat) (l : List (Nat × Nat)) :
+    y ∈ setInsert x l ↔ y = x ∨ y ∈ l :=
+  mem_setInsert' x y l
+
+/-! ### non-vacuity -/
+
+/-- a well-formed edit with every field populated -/
+def sampleEdit : Edit :=
+  { comparator := some [108, 101, 118, 101, 108, 100, 98]
+    logNumber := some 12
+    prevLogNumber := some 0
+    nextFile := some (2 ^ 64 - 1)
+    lastSeq := some 300
+    compactPointers := [(1, [1, 2, 3, 4, 5, 6, 7, 8]), (6, [9, 9, 9, 9, 9, 9, 9, 9, 9])]
+    deletedFiles := [(0, 5), (0, 7), (3, 1)]
+    newFiles := [{ level := 2, number := 17, size := 4096,
+                   smallest := [97, 1, 0, 0, 0, 0, 0, 0, 0], largest := [122, 1, 0, 0, 0, 0, 0, 0, 0] }] }
+
+/-- a second one whose scalars partly override and whose deleted files overlap the first -/
+def sampleEdit2 : Edit :=
+  { logNumber := some 13
+    lastSeq := some 301
+    compactPointers := [(0, [0, 0, 0, 0, 0, 0, 0, 0])]
+    deletedFiles := [(0, 6), (0, 7), (4, 200)]
+    newFiles := [{ level := 0, number := 18, size := 1,
+                   smallest := [0, 0, 0, 0, 0, 0, 0, 0], largest := [0, 0, 0, 0, 0, 0, 0, 1] }] }
+
+theorem sampleEdit_wf : EditWF sampleEdit := by
+  constructor <;> decide
+
+theorem sampleEdit2_wf : EditWF sampleEdit2 := by
+  constructor <;> decide
+
+example : editDecode (editEncode sampleEdit) = some sampleEdit :=
+  edit_roundtrip sampleEdit sampleEdit_wf
+
+example : editDecode (editEncode sampleEdit ++ editEncode sampleEdit2)
+    = some (editMerge sampleEdit sampleEdit2) :=
+  decode_last_scalar_wins sampleEdit sampleEdit2 sampleEdit_wf sampleEdit2_wf
+
+/-- the merge really overrides / unions as described -/
+example : (editMerge sampleEdit sampleEdit2).logNumber = some 13
+    ∧ (editMerge sampleEdit sampleEdit2).nextFile = some (2 ^ 64 - 1)
+    ∧ (editMerge sampleEdit sampleEdit2).deletedFiles = [(0, 5), (0, 6), (0, 7), (3, 1), (4, 200)] := by
+  decide
+
+/-- sortedness is needed for the round trip: an unsorted deleted-file list comes back sorted -/
+theorem edit_roundtrip_needs_sorted : editDecode (editEncode { deletedFiles := [(1, 2), (0, 3)] })
+    = some { deletedFiles := [(0, 3), (1, 2)] } := by
+  have h := decode_last_scalar_wins { deletedFiles := [(1, 2)] } { deletedFiles := [(0, 3)] }
+    (by constructor <;> decide) (by constructor <;> decide)
+  have he : editEncode { deletedFiles := [(1, 2), (0, 3)] }
+      = editEncode { deletedFiles := [(1, 2)] } ++ editEncode { deletedFiles := [(0, 3)] } := by
+    simp [editEncode, optField]
+  rw [he, h]
+  decide
+
+example : setInsert (0, 6) [(0, 5), (0, 7)] = [(0, 5), (0, 6), (0, 7)] := by decide
+example : ∃ r, editDecode [7, 0] = r := decode_total _
 
 end Lcdb.C17
